@@ -154,7 +154,8 @@ def generate(binary, plan, outdir, sd, nestp=0.0):
         pref = os.path.join(outdir, "%s%d" % (mode, k))
         rc, out = run([binary, "seq", "-mode", mode, "-n", str(n), "-calls", str(calls),
                        "-seed", str(sd * 1000 + k), "-vetop", str(vetop), "-nestp", str(nestp),
-                       "-out", pref, "-shards", "16"], timeout=1200)
+                       "-out", pref, "-shards", "16" if os.environ.get("VERIF_TIER", "quick") == "quick" else "64"],
+                      timeout=1200 if os.environ.get("VERIF_TIER", "quick") == "quick" else 6000)
         if rc != 0:
             raise Inconclusive("driver failed (%s): %s" % (mode, out[-2000:]))
         st = json.loads(out.strip().splitlines()[-1])
